@@ -62,6 +62,57 @@ def big_history(rng, kind):
     h.schema = G.schema_sx(h.nodes)
     return h
 
+def zero_byte_histories(rng, tier):
+    """values whose encoding is ZERO bytes long (null, a record without fields, records / arrays-free nestings of those): a
+    block is then nothing but its object count. Every codec setting x schema x op patterns mixing pre-serialized pushes of
+    several such values at once (an empty byte string with n > 0) with serialize calls and explicit flushes, closing by
+    into_inner / drop / finish. -> [(history, ops, expected, codec, approx_block_size)]"""
+    N = G.Node
+    kinds = [
+        ([N("null")], "null"),
+        ([N("record", name="E", fields=[])], "(record)"),
+        ([N("record", name="R", fields=[("a", 1), ("b", 2)]), N("null"), N("record", name="E", fields=[])], "(record null (record))"),
+    ]
+    out = []
+    reps = 1 if tier == "quick" else 8
+    k = rng.randrange(100)
+    for _ in range(reps):
+        for c in cont.CODECS:
+            for nodes, val in kinds:
+                k += 1
+                h = cont.History.__new__(cont.History)
+                h.rng = rng
+                h.nodes = nodes
+                nv = rng.choice([1, 2, 3, 6, 9])
+                h.values = [val] * nv
+                h.schema = G.schema_sx(nodes)
+                ops, i = [], 0
+                style = ["pushes-only", "mixed", "mixed", "push-all-at-once"][k % 4]
+                while i < nv:
+                    if style == "push-all-at-once":
+                        m = nv - i
+                    elif style == "pushes-only" or rng.random() < 0.5:
+                        m = rng.randint(1, min(3, nv - i))
+                    else:
+                        m = 0
+                    if m:
+                        ops.append(("push", "(push x %d)" % m, list(range(i, i + m))))
+                        i += m
+                    else:
+                        ops.append(("ser", None, [i]))      # presentation filled in once the specification oracle has answered
+                        i += 1
+                    if rng.random() < 0.3:
+                        ops.append(("finish", "finish"))
+                ops.append((lambda e: (e, e))(rng.choice(["into_inner", "drop", "into_inner", "finish"])))
+                out.append((h, ops, list(range(nv)), c, rng.choice([0, 1, 64, 65536])))
+    cont.prepare_all([h for h, *_ in out])
+    res = []
+    for h, ops, expected, c, b in out:
+        assert all(s["canon"] == "x" for s in h.spec), "zero-byte value expected"
+        ops = [(o[0], "(ser %s)" % h.spec[o[2][0]]["present"], o[2]) if o[0] == "ser" else o for o in ops]
+        res.append((h, ops, expected, c, b))
+    return res
+
 def run(ctx):
     rng = random.Random(ctx["seed"] * 1000003 + 5)
     n = 120 if ctx["tier"] == "quick" else 4000
@@ -77,6 +128,7 @@ def run(ctx):
         codec_sx = cont.CODECS[i % len(cont.CODECS)]
         bsz = rng.choice([0, 1, 2, 17, 64, 4096, 32768, 65536, 65535, 1 << 20])
         hs.append((h, ops, expected, codec_sx, bsz))
+    hs.extend(zero_byte_histories(rng, ctx["tier"]))
     wl = [cont.cw_line(h, c, b, "vec", [], ops) for (h, ops, ex, c, b) in hs]
     wr = C.run_parallel(C.AVRODRIVE, wl)
     violations, diffs, samples, distinct = [], [], [], set()
@@ -143,7 +195,13 @@ def run(ctx):
     extra_eval = wf["evaluations"]
     extra_distinct = set()
     for part in (codecloop.run_loops, codecloop.run_snappy, codecloop.run_oneshot, decodeloop.run_valid):
-        r = part(random.Random(ctx["seed"] * 7919 + 55), ctx["tier"])
+        try:
+            r = part(random.Random(ctx["seed"] * 7919 + 55), ctx["tier"])
+        except Exception as e:
+            # a part that cannot even evaluate what the crate produced must not hide what the other parts found
+            import traceback
+            diffs.append({"what": "%s.%s did not run to its end: %r" % (part.__module__, part.__name__, e), "trace": traceback.format_exc()[-1500:]})
+            continue
         violations.extend(r["violations"])
         diffs.extend(r["diffs"])
         notes.update(r["notes"])
@@ -153,7 +211,9 @@ def run(ctx):
     return {"evaluations": len(wl) + len(rl) + extra_eval, "distinct_nontrivial": len(distinct) + len(extra_distinct), "notes": notes,
             "rule": "histories (values, failing values, pushes, finish_block, into_inner/drop) x 12 codec/level settings (all six codecs) x "
                     "approx_block_size in {0,1,2,17,64,4096,32768,65535,65536,2^20}, plus payloads that cross internal buffers (8189..70000 "
-                    "incompressible/compressible bytes, zero-byte datums); every file read back from a slice and from chunked readers "
+                    "incompressible/compressible bytes, zero-byte datums); directed: zero-byte values (null, record without fields, record of those) x every codec setting x "
+                    "{pre-serialized pushes only (an empty byte string announcing 1..3 values), all values in one push, pushes mixed with serialize calls} x explicit flushes x "
+                    "closing by into_inner / drop / finish_block; every file read back from a slice and from chunked readers "
                     "(1 byte per fill_buf, small and irregular chunks): exactly the written values in order then end of stream; reader model vs crate (null codec); "
                     "encode loops (hook H3): codecs {deflate, bzip2, xz} x levels x START in {1,2,64,4096,32768} x inputs {empty, 1 byte, random / constant / text payloads "
                     "of START-1..START+1, 2*START-1..2*START+1, 4*START-1..4*START+1 bytes (text x3)} on a fresh codec state, plus sequences of blocks on one codec state "
